@@ -877,6 +877,22 @@ func exImportedElementGraphs() []*exGraph {
 			"/b": m{"post": m{"parameters": []interface{}{m{"$ref": "#/parameters/p"}, m{"$ref": layout + "responses.json#/parameters/p"}}, "responses": m{"200": m{"$ref": layout + "responses.json#/responses/r"}}}}}
 		out = append(out, exFromGeneric(m{"file:///s/root.json": root, "file:///s/" + layout + "params.json": mk("params"), "file:///s/" + layout + "responses.json": mk("responses")}, "file:///s/root.json"))
 	}
+	// a two-hop import through a document whose file name merely ENDS with the name of the next one (common-params.json →
+	// params.json, spelled with the bare name): both hold a definition of the same name, referred to by fragment
+	{
+		mkp := func(who string, p m) m {
+			return m{"swagger": "2.0", "info": m{"title": who, "version": "1"}, "paths": m{}, "parameters": m{"p": p},
+				"responses":   m{"r": m{"description": "r of " + who, "schema": m{"$ref": "#/definitions/Local"}}},
+				"definitions": m{"Local": m{"type": "object", "description": "Local of " + who}}}
+		}
+		common := mkp("common-params", m{"$ref": "params.json#/parameters/p"})
+		common["responses"] = m{"r": m{"$ref": "params.json#/responses/r"}}
+		params := mkp("params", m{"name": "p", "in": "body", "schema": m{"$ref": "#/definitions/Local"}})
+		root := m{"swagger": "2.0", "info": m{"title": "root", "version": "1"}, "definitions": m{"Local": m{"type": "integer", "description": "Local of root"}},
+			"paths": m{"/a": m{"get": m{"parameters": []interface{}{m{"$ref": "shared/common-params.json#/parameters/p"}},
+				"responses": m{"200": m{"$ref": "shared/common-params.json#/responses/r"}}}}}}
+		out = append(out, exFromGeneric(m{"file:///x/root.json": root, "file:///x/shared/common-params.json": common, "file:///x/shared/params.json": params}, "file:///x/root.json"))
+	}
 	// a document served at a location with a query (a revision, a format selector): part of its identity for anything but a
 	// local file; referenced several times and referring to itself by fragment
 	for _, loc := range []string{"https://h.example/types.json?rev=2", "http://h.example:8080/api/types?format=json&rev=2"} {
